@@ -326,9 +326,10 @@ def stepProg (env : Env) (w : World) : Sexp → Option (World × Env × Prog)
       let (w, sj) := w.allocSubj
       let (w, c) := w.allocCell (.bool false)
       let (w, sb) := w.allocCell .lnil
+      let (w, cn) := w.allocCell (.bool false)
       let (w, id) := w.allocObsv sj.observable
       some (w, (name, .refc sj id) :: env,
-        refCountHooks ⟨c, sb⟩ o sj.onSub sj.onUnsub (fun x => sj.next x) (fun e => sj.error e) sj.complete)
+        refCountHooks ⟨c, sb, cn⟩ o sj.onSub sj.onUnsub (fun x => sj.next x) (fun e => sj.error e) sj.complete)
   | .list [.atom "conn", .atom name, .atom "replay", p] => do
       let o ← parsePipe env p
       let (w, sj) := w.allocSubj
@@ -338,9 +339,10 @@ def stepProg (env : Env) (w : World) : Sexp → Option (World × Env × Prog)
       let r : RSubj := ⟨sj, it, we, wc⟩
       let (w, c) := w.allocCell (.bool false)
       let (w, sb) := w.allocCell .lnil
+      let (w, cn) := w.allocCell (.bool false)
       let (w, id) := w.allocObsv r.observable
       some (w, (name, .refc sj id) :: env,
-        refCountHooks ⟨c, sb⟩ o sj.onSub sj.onUnsub (fun x => r.next x) (fun e => r.error e) r.complete)
+        refCountHooks ⟨c, sb, cn⟩ o sj.onSub sj.onUnsub (fun x => r.next x) (fun e => r.error e) r.complete)
   | .list [.atom "sub", p, react] => do
       let o ← parsePipe env p
       let r ← parseReact env react
